@@ -256,14 +256,15 @@ func defaultPolicy(ld *loaded, stubs map[string]*ssa.Function) *sym.Policy {
 			"toy*",
 		},
 		InterpretFns: map[string]bool{
-			"(github.com/ipfs/go-cid.Cid).Defined":                    true,
-			"(github.com/ipfs/go-cid.Cid).Equals":                     true,
-			"(github.com/ipfs/go-cid.Cid).KeyString":                  true,
-			"(*errors.errorString).Error":                             true,
-			"(*fmt.wrapError).Error":                                  true,
-			"(*fmt.wrapError).Unwrap":                                 true,
-			"(github.com/ipfs/go-graphsync.RequestID).String":         false,
-			"(github.com/ipfs/go-graphsync.RequestNotFoundErr).Error": true,
+			"(github.com/filecoin-project/go-ds-versioning/pkg/versioned.BuilderList).Build": true,
+			"(github.com/ipfs/go-cid.Cid).Defined":                                           true,
+			"(github.com/ipfs/go-cid.Cid).Equals":                                            true,
+			"(github.com/ipfs/go-cid.Cid).KeyString":                                         true,
+			"(*errors.errorString).Error":                                                    true,
+			"(*fmt.wrapError).Error":                                                         true,
+			"(*fmt.wrapError).Unwrap":                                                        true,
+			"(github.com/ipfs/go-graphsync.RequestID).String":                                false,
+			"(github.com/ipfs/go-graphsync.RequestNotFoundErr).Error":                        true,
 		},
 		IgnorePkgs: []string{
 			"github.com/ipfs/go-log/v2",
